@@ -10,7 +10,7 @@ P = 'tao::pegtl::'
 OPEXPR = {
     'ANY': 'any', 'ONE_A': "one< 'a' >", 'NOT_ONE_A': "not_one< 'a' >", 'RANGE_AB': "range< 'a', 'b' >", 'STRING_AB': "string< 'a', 'b' >",
     'EOF_': 'eof', 'SUCCESS': 'success', 'FAILURE': 'failure', 'ONE_B': "one< 'b' >", 'EOL': 'eol', 'EOLF': 'eolf', 'BOF': 'bof', 'BOL': 'bol',
-    'BYTES2': 'bytes< 2 >', 'EVERYTHING': 'everything', 'ISTRING_AB': "istring< 'a', 'b' >",
+    'BYTES2': 'bytes< 2 >', 'DISCARD': 'discard', 'REQUIRE2': 'require< 2 >', 'EVERYTHING': 'everything', 'ISTRING_AB': "istring< 'a', 'b' >",
     'OPT_ONE_A': "opt< one< 'a' > >", 'AT_ONE_A': "at< one< 'a' > >", 'NOT_AT_ONE_A': "not_at< one< 'a' > >",
     'KEYWORD_AB': "keyword< 'a', 'b' >", 'IDENTIFIER': 'identifier', 'SHEBANG': 'shebang', 'TWO_A': "two< 'a' >", 'THREE_A': "three< 'a' >",
     'ROMM12_A': "rep_one_min_max< 1, 2, 'a' >", 'ROMM02_A': "rep_one_min_max< 0, 2, 'a' >", 'ROMM00_A': "rep_one_min_max< 0, 0, 'a' >",
